@@ -1,10 +1,10 @@
 package main
 
 import (
-	"bufio"
 	"fmt"
 	"os"
 	"path/filepath"
+	"strings"
 
 	"github.com/ah-naf/borno/interpreter"
 	"github.com/ah-naf/borno/lexer"
@@ -51,18 +51,19 @@ func runFile(path string) {
 }
 
 func runPrompt() {
-	scanner := bufio.NewScanner(os.Stdin)
-	// The default token limit (64 KiB) makes Scan fail on a longer line, which
-	// silently ended the session.
-	scanner.Buffer(make([]byte, 0, 64*1024), 1<<30)
+	// Lines are read through the reader that `input` uses: with a reader of its
+	// own the prompt buffered the lines meant for `input` (which then saw end of
+	// input and had its data executed as code), and `input` buffered lines meant
+	// for the prompt, depending on how stdin happened to be delivered.
+	reader := interpreter.Stdin
 	for {
 		fmt.Printf(">> ")
-		scanned := scanner.Scan()
-		if !scanned {
+		line, err := reader.ReadString('\n')
+		if err != nil && line == "" {
 			return
 		}
-
-		line := scanner.Text()
+		line = strings.TrimSuffix(line, "\n")
+		line = strings.TrimSuffix(line, "\r")
 		run(line, true)
 
 		utils.HadError = false
